@@ -49,6 +49,7 @@ import M4riProofs.MathlibSpec
 import M4riProofs.Top
 import M4riProofs.EchelonTop
 import M4riProofs.GenTie
+import M4riProofs.GenTieAlg
 namespace M4ri.Props.C02
 open M4ri M4ri.BMat
 
@@ -224,5 +225,30 @@ theorem C02_full_hybrid (L1 L2 L3 : Nat) (switch : Nat → Nat → BMat → Bool
 #check @M4ri.GenTie.processRows3Split_eq
 #check @M4ri.GenTie.processRows2Split_eq
 #check @M4ri.GenTie.optK_eq
+
+
+/-! ### END TO END ON THE C TEXT of `mzd_gauss_delayed` (= `mzd_echelonize_naive`): the function
+    `Gen.C.mzdGaussDelayed` is generated from /repo/m4ri/mzd.c on every check (three nested loops, calls of the generated
+    `mzd_read_bit`, `mzd_row_swap`, `mzd_row_add_offset`); `GenTieAlg.mzdGaussDelayed_eq` proves it equal to the model
+    `gaussDelayed` through the memory image, so the theorems above hold for the translated code itself. -/
+#check @M4ri.GenTieAlg.mzdGaussDelayed_eq
+#check @M4ri.GenTieAlg.mzdGaussDelayed_spec
+#check @M4ri.GenTieAlg.mzdFindPivot_eq
+
+/-- the translated C code of `mzd_echelonize_naive(M, full)` run on the memory image of a well-formed matrix with zero
+    padding returns rank(M) and leaves the memory image of an echelon form with the same row space; with `full` THE RREF -/
+theorem c_text_naive_gauss (M : Mzd) (full : Bool) (hwf : M.WF) (hp : M.padZero) (hB : M.toB.WF) :
+    let res := Gen.C.mzdGaussDelayed 0 (if full then 1 else 0) (GenTieMem.memOf M) M.ncols M.nrows M.width M.hb
+    res.1 = (M.toB.rank : Int) ∧
+    res.2 = GenTieMem.memOf (Mzd.ofB (gaussDelayed M.toB 0 full).1) ∧
+    SameSpan M.toB (gaussDelayed M.toB 0 full).1 ∧ (gaussDelayed M.toB 0 full).1.isRowEchelon = true ∧
+    (full = true → (gaussDelayed M.toB 0 full).1.isRREF = true) := by
+  have h := GenTieAlg.mzdGaussDelayed_eq_ofB M 0 full hwf hp
+  intro res
+  have hres : res = (((gaussDelayed M.toB 0 full).2 : Int), GenTieMem.memOf (Mzd.ofB (gaussDelayed M.toB 0 full).1)) := h
+  refine ⟨?_, ?_, naive_row_space hB full, naive_row_echelon hB full, ?_⟩
+  · rw [hres, naive_rank hB full]
+  · rw [hres]
+  · intro hf; subst hf; exact naive_rref hB
 
 end M4ri.Props.C02
